@@ -434,6 +434,12 @@ func runRemote(t *testing.T, p *RemotePlan, prop string, res *simnet.Result) {
 			fwg.Wait()
 			return
 		}
+		// the submitter may have been told that the start failed (e.g. the connection broke while the input was
+		// being sent): such a unit was never started and nothing has to be followed
+		submitFailed := strings.HasPrefix(final, "ERROR")
+		if os.Getenv("VERIF_DEBUG") != "" {
+			fmt.Fprintf(os.Stderr, "submit: unit=%q ack=%q final=%q err=%v\n", unit, ack, final, err)
+		}
 		mu.Lock()
 		localStatus = filepath.Join(cw.UnitDirReal(unit), "status")
 		mu.Unlock()
@@ -579,6 +585,19 @@ func runRemote(t *testing.T, p *RemotePlan, prop string, res *simnet.Result) {
 			if !ok {
 				continue
 			}
+			if submitFailed && !ls.ExtraData.RemoteStarted && w.Now() > settle-300*time.Second {
+				res.Add("probe_submit_reported_failed", 1)
+				converged = true
+				break
+			}
+			if !ls.ExtraData.RemoteStarted && ls.ExtraData.RemoteUnitID != "" && ls.State == 0 && len(crashes) == 0 && w.Now() > settle-100*time.Second {
+				// the start (in the background, after "Job Submitted") got as far as allocating the remote unit and then
+				// lost its connection while sending the input: the code gives up without retrying and the unit stays
+				// pending until the next restart marks it failed.  No listed property promises more; counted, not flagged.
+				res.Add("probe_background_start_gave_up", 1)
+				converged = true
+				break
+			}
 			if ls.State == 2 || ls.State == 3 {
 				fi, err := os.Stat(localOut)
 				var sz int64
@@ -626,6 +645,9 @@ func runRemote(t *testing.T, p *RemotePlan, prop string, res *simnet.Result) {
 			return
 		}
 		// identity survives (C04)
+		if !ls.ExtraData.RemoteStarted && ls.State == 0 && len(crashes) == 0 {
+			return
+		}
 		if ls.WorkType != "remote" || ls.ExtraData.RemoteNode != "x0" {
 			res.Violate(prop+":remote-identity-lost", "local record says work type %q, remote node %q", ls.WorkType, ls.ExtraData.RemoteNode)
 		}
